@@ -89,7 +89,7 @@ def get_use_tree(
                         **merged_rename,
                     }
                     use_dict[use_stmnt.mod_name] = use_dict_mod
-            else:
+            elif type(use_stmnt) is Use:
                 use_dict[use_stmnt.mod_name] = Use(use_stmnt.mod_name)
             # Skip if we have already visited module with the same only list
             if old_len == len(use_dict_mod.only_list):
